@@ -67,3 +67,17 @@ impl<'a, T> core::ops::Deref for Cow<'a, T> {
 /// `&str == String` (impl PartialEq<String> for &str): equality of contents
 pub assume_specification<'a> [<&'a str as PartialEq<String>>::eq] (a: &&'a str, b: &String) -> (r: bool)
     ensures r == (a@ == b@);
+
+/// stand-in for debversion::ParseError
+pub struct VxVersionParseError;
+impl VxDisplay for VxVersionParseError {
+    uninterp spec fn display_spec(&self) -> Seq<char>;
+}
+/// TRUSTED: `str::parse::<debversion::Version>` as an abstract partial function of the text
+pub uninterp spec fn version_parse_spec(s: Seq<char>) -> Option<debversion::Version>;
+impl VxFromStr for debversion::Version {
+    type VxErr = VxVersionParseError;
+    open spec fn parse_spec(s: Seq<char>) -> Option<debversion::Version> { version_parse_spec(s) }
+    #[verifier::external_body]
+    fn vx_from_str(s: &str) -> (r: Result<debversion::Version, VxVersionParseError>) { unimplemented!() }
+}
